@@ -28,8 +28,21 @@ func (ex *Exec) binop(op token.Token, a, b Val, at, bt, rt types.Type, ins ssa.I
 		case token.ADD:
 			return ex.stringConcat(a.(SliceV), b.(SliceV))
 		case token.LSS, token.LEQ, token.GTR, token.GEQ:
+			// lexicographic order through an uninterpreted rank of the string value: an order embedding of the
+			// (countable, total) order on byte strings. Equal contents have equal ranks (strRankFact, added where two
+			// strings are compared for equality when the contract asks for `option strorder`).
 			x, y := a.(SliceV), b.(SliceV)
-			return ex.boolV(ts.App("strcmp|"+op.String(), SBool, x.Base, x.Off, x.Len, y.Base, y.Off, y.Len))
+			rx, ry := ex.strRank(x), ex.strRank(y)
+			switch op {
+			case token.LSS:
+				return ex.boolV(ts.Lt(rx, ry, true))
+			case token.LEQ:
+				return ex.boolV(ts.Le(rx, ry, true))
+			case token.GTR:
+				return ex.boolV(ts.Lt(ry, rx, true))
+			default:
+				return ex.boolV(ts.Le(ry, rx, true))
+			}
 		}
 	}
 	if isBoolean(at) {
@@ -416,7 +429,14 @@ func (ex *Exec) valEq(a, b Val, t types.Type) *Term {
 			unsup("slice compared with %T", b)
 		}
 		if x.IsString || y.IsString || isString(t) {
-			return ex.seqEq(x, y)
+			eq := ex.seqEq(x, y)
+			if ex.contract != nil {
+				if _, on := ex.contract.Options["strorder"]; on {
+					// equal contents have equal ranks (kept under quantifier binders like the allocation facts)
+					ex.assumeAlloc(ts.Eq(eq, ts.Eq(ex.strRank(x), ex.strRank(y))))
+				}
+			}
+			return eq
 		}
 		// slices compare only against nil
 		if y.Base.IsLit() && y.Base.Lit.Sign() == 0 {
@@ -476,6 +496,12 @@ func (ex *Exec) arrayEq(x, y ArrayLoc) *Term {
 }
 
 // seqEq: content equality of two byte sequences living in the heap.
+func (ex *Exec) strRank(x SliceV) *Term {
+	// a function of the content (the byte array the string lives in, its offset and length), not of the header: writes to
+	// other byte arrays cannot make two rank facts about the same string inconsistent
+	return ex.ts.App("strrank", SInt, ex.toSeq(x).Arr, x.Off, x.Len)
+}
+
 func (ex *Exec) seqEq(x, y SliceV) *Term {
 	return ex.seqEqSeq(ex.toSeq(x), ex.toSeq(y))
 }
